@@ -93,7 +93,7 @@ func verifH_C13_body_readable() {
 	verifReach("end")
 }
 
-//verif:harness id=C13 tier=quick,thorough witness=end bounds="parameter defaults: query / header / cookie parameter with schema integer default 7 / 7.0 / 1000000.0 (as decoded from JSON), string default 'd', or array of integers default [1,2] (style form/spaceDelimited/pipeDelimited, explode on/off); parameter absent or present; SkipSettingDefaults on/off; after ValidateRequest the forwarded request carries the default exactly when it was absent and defaults are on; validating the forwarded request again succeeds and changes nothing; decoding the parameter again yields the default"
+//verif:harness id=C13 tier=quick,thorough witness=end bounds="parameter defaults: query / header / cookie parameter with schema integer default 7 / 7.0 / 1000000.0 (as decoded from JSON), string default 'd', or array of integers default [1,2] (style form/spaceDelimited/pipeDelimited, explode on/off); parameter absent, present with a value, or present but empty; declared on the operation, on the path item, or on the path item behind a parameter the operation overrides; SkipSettingDefaults on/off; after ValidateRequest the forwarded request carries the default exactly when it was absent and defaults are on; validating the forwarded request again succeeds and changes nothing; decoding the parameter again yields the default"
 func verifH_C13_param_defaults() {
 	in := []string{"query", "header", "cookie"}[verifChoose("in", 3)]
 	shape := verifChoose("shape", 3)
@@ -139,24 +139,52 @@ func verifH_C13_param_defaults() {
 	if param.Validate(context.Background()) != nil {
 		return
 	}
-	op := &openapi3.Operation{Parameters: openapi3.Parameters{{Value: param}}}
+	// where the parameter is declared: on the operation, or on the path item (alone, or behind another
+	// path-level parameter that the operation overrides)
+	op := &openapi3.Operation{}
+	pathItem := &openapi3.PathItem{Get: op}
+	switch verifChoose("level", 3) {
+	case 0:
+		op.Parameters = openapi3.Parameters{{Value: param}}
+	case 1:
+		pathItem.Parameters = openapi3.Parameters{{Value: param}}
+	case 2:
+		other := func() *openapi3.ParameterRef {
+			return &openapi3.ParameterRef{Value: &openapi3.Parameter{Name: "other", In: "query", Schema: &openapi3.SchemaRef{Value: &openapi3.Schema{Type: &openapi3.Types{"string"}}}}}
+		}
+		pathItem.Parameters = openapi3.Parameters{other(), {Value: param}}
+		op.Parameters = openapi3.Parameters{other()}
+	}
 	req := &http.Request{Method: "GET", Header: http.Header{}, URL: &url.URL{Path: "/"}}
-	present := verifChoose("present", 2) == 1
-	if present {
+	presence := verifChoose("present", 3) // 0 absent, 1 present with a value, 2 present but empty
+	present := presence == 1
+	if presence != 0 {
+		text := []string{"", "5", ""}[presence]
 		switch in {
 		case "query":
-			req.URL.RawQuery = "P=5"
+			req.URL.RawQuery = "P=" + text
 		case "header":
-			req.Header["P"] = []string{"5"}
+			req.Header["P"] = []string{text}
 		case "cookie":
-			req.Header["Cookie"] = []string{"P=5"}
+			req.Header["Cookie"] = []string{"P=" + text}
 		}
 	}
 	skip := verifChoose("skip", 2) == 1
 	opts := &Options{SkipSettingDefaults: skip}
-	route := &routers.Route{Spec: &openapi3.T{}, PathItem: &openapi3.PathItem{Get: op}, Operation: op, Method: "GET"}
+	route := &routers.Route{Spec: &openapi3.T{}, PathItem: pathItem, Operation: op, Method: "GET"}
 	rawBefore, hdrBefore, cookiesBefore := req.URL.RawQuery, len(req.Header["P"]), len(req.Header["Cookie"])
 	err := ValidateRequest(context.Background(), &RequestValidationInput{Request: req, Route: route, Options: opts})
+	if presence == 2 {
+		// present but empty: whatever the verdict, validating again must not keep changing the request
+		raw1, hdr1, ck1 := req.URL.RawQuery, strings.Join(req.Header["P"], "|"), strings.Join(req.Header["Cookie"], "|")
+		_ = ValidateRequest(context.Background(), &RequestValidationInput{Request: req, Route: route, Options: opts})
+		verifAssert(req.URL.RawQuery == raw1 && strings.Join(req.Header["P"], "|") == hdr1 && strings.Join(req.Header["Cookie"], "|") == ck1, "C13 parameter defaults: an empty parameter: a second validation changes nothing further")
+		if skip {
+			verifAssert(req.URL.RawQuery == rawBefore && len(req.Header["P"]) == hdrBefore && len(req.Header["Cookie"]) == cookiesBefore, "C13 parameter defaults: nothing is written when default-setting is skipped")
+		}
+		verifReach("end")
+		return
+	}
 	verifAssert(err == nil, "C13 parameter defaults: an optional parameter that is absent or well-formed validates")
 	if present || skip {
 		verifAssert(req.URL.RawQuery == rawBefore && len(req.Header["P"]) == hdrBefore && len(req.Header["Cookie"]) == cookiesBefore, "C13 parameter defaults: nothing is written when the parameter is present or default-setting is skipped")
